@@ -245,10 +245,13 @@ def md_ops(keys=K, vals=V):
         ops.append(("update", spec))
     for spec in MD_ARGS[:5]:
         ops.append(("ior", spec))
+    for spec in MD_ARGS[:7]:
+        ops.append(("or", spec))
     return ops
 
 
 MD_OPS = md_ops()
+MD_MUT_OPS = [o for o in MD_OPS if o[0] != "or"]
 MD_MUTATORS = {"setitem", "add", "setdefault", "setlist", "setlistdefault", "sld_append", "delitem", "pop",
                "pop_d", "poplist", "popitem", "popitemlist", "clear", "update", "ior"}
 
@@ -302,6 +305,11 @@ def md_apply(md, op, vmap=None):
     if n == "ior":
         md |= _vm_arg(op[1], vmap)
         return None
+    if n == "or":
+        new = md | _vm_arg(op[1], vmap)
+        if type(new) is not type(md) or new is md:
+            raise AssertionError("| must return a new object of the same class")
+        return ("NEW", md_canon(new))
     if n == "add_file":
         md.add_file(op[1], io.BytesIO(b"data"), filename=op[2])
         return None
@@ -408,6 +416,16 @@ def md_step(d, op):
         for k, v in arg_pairs(op[1]):
             d.setdefault(k, []).append(v)
         return [ok()]
+    if n == "or":
+        if op[1][0] not in MAPPING_KINDS:
+            return [(("exc", "TypeError"), d)]           # documented for mappings only
+        d2 = {k: list(v) for k, v in d.items()}
+        for k, v in arg_pairs(op[1]):
+            d2.setdefault(k, []).append(v)
+        alts = [(("ok", ("NEW", rep_of(d2))), d)]
+        if any(not l for l in d2.values()):
+            alts.append((("ok", ("NEW", rep_of(drop_empty(d2)))), d))
+        return alts
     raise core.Broken(f"unknown op {op}")
 
 
@@ -503,7 +521,7 @@ class _FSMap:
 FSMAP = _FSMap()
 FV = [("FS", "f1", None, None), ("FS", "f2", None, None)]
 FMD_OPS = md_ops(keys=["a", "b"], vals=FV)
-FMD_OPS = [o for o in FMD_OPS if not (o[0] in ("update", "ior") and o[1][0] in ("dictset", "iter"))]
+FMD_OPS = [o for o in FMD_OPS if not (o[0] in ("update", "ior", "or") and o[1][0] in ("dictset", "iter"))]
 FMD_OPS += [("add_file", k, "n.txt") for k in ("a", "b")]
 
 MD_CLASSES = {"MultiDict": MultiDict, "FileMultiDict": FileMultiDict}
@@ -688,7 +706,7 @@ def imd_state_checks(rep, others):
     for name, e, g in compare_reads(md_reads_model(d), md_reads_real(x)):
         out.append(viol(fam, "read:" + name.split(":")[0], "-", read=name, exp=e, got=g, **base))
     # every mutator is rejected with TypeError and changes nothing
-    for op in MD_OPS:
+    for op in MD_MUT_OPS:
         y = ImmutableMultiDict(pairs_of(rep))
         h0 = hash(y)
         try:
@@ -754,7 +772,7 @@ def imd_state_checks(rep, others):
 
 CMD_UNDER_OPS = [o for o in MD_OPS if o[0] in ("setitem", "add", "delitem", "pop_d", "poplist", "clear", "popitemlist")
                  or (o[0] == "setlist" and o[2]) or (o[0] == "update" and o[1][0] == "pairs" and o[1][1])]
-CMD_OPS = [("d1",) + o for o in CMD_UNDER_OPS] + [("d2",) + o for o in CMD_UNDER_OPS] + [("self",) + o for o in MD_OPS]
+CMD_OPS = [("d1",) + o for o in CMD_UNDER_OPS] + [("d2",) + o for o in CMD_UNDER_OPS] + [("self",) + o for o in MD_MUT_OPS]
 
 
 def cmd_reads_model(d1, d2):
@@ -963,6 +981,8 @@ def hd_ops():
             ("extend", ("none", ())), ("update", ("none", ()))]
     for spec in HD_ARGS[:5]:
         ops.append(("ior", spec))
+    for spec in HD_ARGS[:8]:
+        ops.append(("or", spec))
     return ops
 
 
@@ -1021,6 +1041,11 @@ def hd_apply(h, op):
     if n == "ior":
         h |= mk_arg(op[1])
         return None
+    if n == "or":
+        new = h | mk_arg(op[1])
+        if type(new) is not type(h) or new is h:
+            raise AssertionError("| must return a new object of the same class")
+        return ("NEW", hd_canon(new))
     if n == "setlist":
         return h.setlist(op[1], list(op[2]))
     if n == "setdefault":
@@ -1151,6 +1176,11 @@ def hd_step(lst, op):
     if n in ("update", "ior"):
         _m_update_arg(l, op[1])
         return ok()
+    if n == "or":
+        if op[1][0] not in MAPPING_KINDS:
+            return exc("TypeError")
+        _m_update_arg(l, op[1])
+        return [(("ok", ("NEW", tuple(l))), list(lst))]
     if n == "update_kw":
         for k, v in op[1]:
             if isinstance(v, tuple):
@@ -2024,7 +2054,7 @@ HIST_LIGHT_MODEL = {
 
 
 def hist_ops(fam, tier, depth):
-    ops = HIST[fam][1]
+    ops = [o for o in HIST[fam][1] if o[0] != "or"]
     if fam == "MultiDict" and depth >= 4:
         ops = [o for o in ops if len(o) < 2 or o[1] in ("a", "A") or o[0] in ("update", "ior")]
         ops = [o for o in ops if not (o[0] in ("update", "ior") and o[1][0] not in ("pairs", "dictlist", "md"))]
@@ -2255,8 +2285,8 @@ def run_unit(unit, R, tier):
     elif kind == "imd":
         for rep in payload:
             R.count("states")
-            R.count("transitions", len(MD_OPS))
-            R.count("executions", len(MD_OPS))
+            R.count("transitions", len(MD_MUT_OPS))
+            R.count("executions", len(MD_MUT_OPS))
             R.ev()
             R.use("family:ImmutableMultiDict")
             emit(R, imd_state_checks(rep, a + (rep,)))
@@ -2376,12 +2406,13 @@ def finalize(R, tier):
         for n in {o[0] for o in ops}:
             if ("op", fam, n, "ok") not in R.used and ("op", fam, n, "viol") not in R.used:
                 need.add(f"op never ran: {fam}.{n}")
-            if ("changed", fam, n) not in R.used:
+            if n != "or" and ("changed", fam, n) not in R.used:
                 need.add(f"op never changed anything: {fam}.{n}")
     for fam, ops in (("Headers", HD_OPS), ("HeaderSet", HS_OPS)):
         for n in {o[0] for o in ops}:
             need.add(("op", fam, n))
-            need.add(("changed", fam, n))
+            if n != "or":
+                need.add(("changed", fam, n))
     for target in ("MultiDict", "ImmutableMultiDict", "Headers"):
         for k in ("pairs", "iter", "dict", "dictlist", "dicttuple", "dictset", "md", "imd", "hdrs", "none"):
             need.add(("ctor", target, k))
